@@ -49,6 +49,13 @@ fn c13_strategy(ctx: &Ctx) -> BoxedStrategy<SeqCase> {
       }
       root.renumber();
       let cold_terminates = s1.last().map_or(false, |e| e.is_terminal());
+      // ref_count over a cold source connects again whenever a first subscriber arrives:
+      // does the n-th connection's script end by itself?
+      let nth_terminates = |n: usize| match src {
+        1 => s1.last().map_or(false, |e| e.is_terminal()),
+        _ => (if n == 0 { &s1 } else { &s2 }).last().map_or(false, |e| e.is_terminal()),
+      };
+      let mut connections = 0usize;
       let mut actions = Vec::new();
       let mut subscribed = [false; 3];
       let mut live = [false; 3];
@@ -57,8 +64,23 @@ fn c13_strategy(ctx: &Ctx) -> BoxedStrategy<SeqCase> {
       let mut ever_connected = false;
       for op in ops {
         match op {
+          COp::Sub(k) if kind == ConnKind::RefCount && !hot => {
+            // "subscribes the source when its first subscriber arrives": also when the
+            // previous connection has ended (by its own terminal or because everybody left)
+            if !subscribed[k] {
+              subscribed[k] = true;
+              actions.push(Action::Subscribe(k));
+              if live.iter().any(|l| *l) {
+                live[k] = true;
+              } else {
+                ever_connected = true;
+                live[k] = !nth_terminates(connections);
+                connections += 1;
+              }
+            }
+          }
           COp::Sub(k) => {
-            // what a (re-)connection to a finished source should do is not fixed
+            // what a (re-)connection to a finished hot source / of a replay should do is not fixed
             let allowed = !subscribed[k]
               && match kind {
                 ConnKind::Replay => hot || !ever_connected || src_done,
